@@ -661,7 +661,7 @@ const tColl = "TestCollectorConcurrent"
 
 type collCase struct {
 	Procs   int     `json:"gomaxprocs"`
-	Adders  [][]int `json:"adders"`  // per goroutine: 0 nil, 1 pointer error, 2 sentinel, 3 errors.Join of two, 4 wrapped
+	Adders  [][]int `json:"adders"`  // per goroutine: 0 nil, 1 pointer error, 2 sentinel, 3 errors.Join of two, 4 wrapped, 5 ers.Join of two (a *Stack), 6 ers.ParsePanic(error)
 	Readers int     `json:"readers"` // goroutines calling Len/HasErrors/Ok meanwhile
 	Yields  []int   `json:"yields"`
 }
@@ -700,9 +700,20 @@ func runColl(t vkit.TB, c collCase, reps int) {
 					case 4:
 						e = fmt.Errorf("g%d-%d: %w", g, i, sentinels[0])
 						mine = []error{e}
+					case 5:
+						// an aggregate of the library's own making: a *Stack
+						a, b := fmt.Errorf("g%d-%d-a", g, i), fmt.Errorf("g%d-%d-b", g, i)
+						e = ers.Join(a, b)
+						mine = []error{a, b}
+					case 6:
+						// what a recovered panic is: the value joined with
+						// ErrRecoveredPanic (also a *Stack)
+						a := fmt.Errorf("g%d-%d-panic", g, i)
+						e = ers.ParsePanic(a)
+						mine = []error{a, ers.ErrRecoveredPanic}
 					}
 					for _, u := range mine {
-						if k != 2 { // sentinels repeat
+						if k != 2 && u != error(ers.ErrRecoveredPanic) { // sentinels repeat
 							seqOf.Store(u, origin{g, uniq})
 							uniq++
 						}
@@ -837,7 +848,7 @@ func TestCollectorConcurrent(t *testing.T) {
 		ng := rapid.IntRange(1, 6).Draw(t, "adders")
 		total, nils := 0, 0
 		for g := 0; g < ng; g++ {
-			items := rapid.SliceOfN(rapid.IntRange(0, 4), 0, 12).Draw(t, "items")
+			items := rapid.SliceOfN(rapid.IntRange(0, 6), 0, 12).Draw(t, "items")
 			c.Adders = append(c.Adders, items)
 			for _, k := range items {
 				total++
